@@ -394,7 +394,7 @@ entries : self . entries . into_vec ( ) . into_iter ( ) , config_k_mask : ( 1 <<
         &&& self.count < self.entries@.len()
     }
 
-    fn find ( & self , slot : u32 ) -> ( r : FindResult ) requires self . wf ( ) , slot < pow2 ( self . lg_config_k as nat ) ensures match r {
+    fn find ( & self , slot : u32 ) -> ( r : FindResult ) requires self . wf ( ) , slot < pow2 ( self . lg_config_k as nat ) ensures /*@C02.aux_find*/ match r {
 FindResult :: Found ( idx ) => idx < self . entries @ . len ( ) && self . entries @ [ idx as int ] != 0 && aslot ( self . entries @ [ idx as int ] ) == slot , FindResult :: Empty ( idx ) => idx < self . entries @ . len ( ) && self . entries @ [ idx as int ] == 0 && ! ahas ( self . entries @ , slot ) && exists | j : int | 0 <= j < self . entries @ . len ( ) && idx == probe_at ( ahome ( slot , self . entries @ . len ( ) as int ) , astride ( slot , self . lg_size ) , j , self . entries @ . len ( ) as int ) && # [ trigger ] apath_clear ( self . entries @ , slot , self . lg_size , j ) , }
 {
 proof {
@@ -738,7 +738,7 @@ let t = choose | t : int | 0 <= t < es . len ( ) && es [ t ] == self . entries @
 
 
     /// Get value for a slot
-    fn get ( & self , slot : u32 ) -> ( r : Option < u8 > ) requires self . wf ( ) , slot < pow2 ( self . lg_config_k as nat ) ensures r == ( if self . view ( ) . dom ( ) . contains ( slot ) {
+    fn get ( & self , slot : u32 ) -> ( r : Option < u8 > ) requires self . wf ( ) , slot < pow2 ( self . lg_config_k as nat ) ensures /*@C02.aux_get*/ r == ( if self . view ( ) . dom ( ) . contains ( slot ) {
 Some ( self . view ( ) [ slot ] ) }
 else {
 None :: < u8 > }
@@ -756,7 +756,7 @@ FindResult :: Found ( idx ) => Some ( get_value ( self . entries [ idx ] ) ) , F
 
 
     /// Replace value for existing slot
-    fn replace ( & mut self , slot : u32 , value : u8 ) requires old ( self ) . wf2 ( ) , slot < pow2 ( old ( self ) . lg_config_k as nat ) , old ( self ) . view ( ) . dom ( ) . contains ( slot ) , 1 <= value <= 63 ensures final ( self ) . wf2 ( ) , final ( self ) . view ( ) == old ( self ) . view ( ) . insert ( slot , value ) , final ( self ) . lg_config_k == old ( self ) . lg_config_k {
+    fn replace ( & mut self , slot : u32 , value : u8 ) requires old ( self ) . wf2 ( ) , slot < pow2 ( old ( self ) . lg_config_k as nat ) , old ( self ) . view ( ) . dom ( ) . contains ( slot ) , 1 <= value <= 63 ensures /*@C02.aux_wf*/ final ( self ) . wf2 ( ) , /*@C02.aux_replace*/ final ( self ) . view ( ) == old ( self ) . view ( ) . insert ( slot , value ) , final ( self ) . lg_config_k == old ( self ) . lg_config_k {
 match self . find ( slot ) {
 FindResult :: Found ( idx ) => {
 let ghost es0 = self . entries @ ;
